@@ -23,7 +23,7 @@ ASSUMPTIONS = [
     "'unclosed transport' ResourceWarning is recorded but tolerated in exactly that situation",
     "external cancellation of a caller's task is outside the property's quantifier and is not driven",
 ]
-MUST = ["nothing_open_at_the_moment_of_return", "answered_request_right_after_a_rejected_one", "reconnect_after_failure", "reconnect_after_close", "reconnect_after_peerdrop", "reconnect_after_loop_change",
+MUST = ["request_after_damaged_answer_with_trailing_bytes", "nothing_open_at_the_moment_of_return", "answered_request_right_after_a_rejected_one", "reconnect_after_failure", "reconnect_after_close", "reconnect_after_peerdrop", "reconnect_after_loop_change",
         "keepalive_reuse", "no_keepalive_closed_after_request", "final_close_zero", "max_one_checked",
         "queued_caller_cancelled", "concurrent_close_and_requests", "setting_write_histories", "transparent_reconnect_checked", "two_objects_one_endpoint", "keepalive_option_rejected"]
 EXHAUSTIVE = {"quick": True, "thorough": True}
@@ -47,7 +47,9 @@ REQ_CLASSES = {
 RETRY_CLASSES = {"drop_ok", "exh", "garbage_ok", "closelate_ok", "close_ok", "late", "frag1", "reset_ok", "senderr"}
 # a request the inverter rejects, followed IN THE SAME LOOP ITERATION by a request it answers (no pause in which a deferred clean-up could run)
 # RAWCMD: a raw command through the public send_command() (answered at once): it travels over the object's one transport like any request
-ACTIONS = list(REQ_CLASSES) + ["CLOSE", "NEWLOOP", "PEERDROP", "REJ_THEN_OK", "RAWCMD"]
+# BAD_THEN_SLOW: a request whose first answer is damaged and trails a few stray bytes 0.3 T later, then - without a pause - a request the inverter
+# takes 0.6 T to answer: the stray bytes of the old transmission arrive while the new request waits, and must not become its answer
+ACTIONS = list(REQ_CLASSES) + ["CLOSE", "NEWLOOP", "PEERDROP", "REJ_THEN_OK", "RAWCMD", "BAD_THEN_SLOW"]
 
 
 def scenario(transport, ka, T, R, actions):
@@ -70,6 +72,17 @@ def scenario(transport, ka, T, R, actions):
             cmd_ = {"kind": "read", "comm": 0xF7, "reg": reg, "count": 2}
             pdu_ = rc.tcp_request_pdu(cmd_)
             cur.append(["rawcmd", (rc.rtu_request(cmd_) if framing == "rtu" else b"\x00\x01\x00\x00" + len(pdu_).to_bytes(2, "big") + pdu_).hex()])
+        elif a == "BAD_THEN_SLOW":
+            reg += 2
+            by_reg[reg - 1], by_reg[reg] = [["badstray", 0.3 * T], "now"], [["delay", 0.6 * T]]
+            reg_class[reg - 1], reg_class[reg] = "garbage_ok", "slow_after_bad"
+            if transport == "udp":
+                # (datagrams have no connection that could be dropped with the old transmission: a stray datagram during the next request IS a
+                #  damaged answer to it and legitimately costs a retransmission - only the damaged answer is kept for UDP)
+                by_reg[reg - 1], by_reg[reg] = ["garbage", "now"], ["now"]
+                reg_class[reg] = "ok"
+            cur.append(["read", reg - 1, 2])
+            cur.append(["read", reg, 2])
         elif a == "REJ_THEN_OK":
             reg += 2
             by_reg[reg - 1], by_reg[reg] = [["exc", 2]], ["now"]
@@ -194,6 +207,13 @@ def check_run(sc, run, part: Part):
             elif ntx_ != 2 and not any(x in RETRY_CLASSES or x in ("ok_latebad", "ok_latereset", "ok_latefrag") for x in sc["actions"]):
                 out.append((f"C10/{tr}/reconnect-not-transparent",
                             f"{ctx}: a rejected request and, right after it, an answered one took {ntx_} transmissions instead of 2"))
+    # (3c) the request that follows a damaged answer works, whatever else of that old transmission is still on its way
+    for c in run.calls:
+        if c["step"][0] == "read" and sc.get("reg_class", {}).get(str(c["step"][1])) == "slow_after_bad":
+            part.count("request_after_damaged_answer_with_trailing_bytes")
+            if c["outcome"] != "ok":
+                out.append((f"C10/{tr}/next-request-fails", f"{ctx}: the request issued right after one whose first answer was damaged (a few more stray bytes of that answer "
+                                                            f"arrive 0.3 T later) ended {c['outcome']}"))
     # (4) the request against the healthy peer succeeds
     healthy = [c for c in run.calls if c["step"][0] == "read" and c["step"][1] == sc["healthy_reg"]]
     if not healthy or healthy[0]["outcome"] != "ok":
